@@ -111,6 +111,48 @@ fn emit_group(g: &Group, scratch: &Path) -> Result<Emitted, String> {
     }
 }
 
+/// the .proto files the real protobuf generator emits for the modules of a group: (module index, file name, text)
+fn emit_protos(g: &Group, scratch: &Path) -> Result<Vec<(usize, String, String)>, String> {
+    let texts: Vec<String> = g.modules.iter().map(print_module).collect();
+    let dir = scratch.join("asn-p");
+    let out = scratch.join("proto");
+    let _ = std::fs::remove_dir_all(scratch);
+    std::fs::create_dir_all(&dir).unwrap();
+    std::fs::create_dir_all(&out).unwrap();
+    let r = guarded(|| -> Result<Vec<(usize, String, String)>, String> {
+        let mut conv = Converter::default();
+        for (i, t) in texts.iter().enumerate() {
+            let p = dir.join(format!("m{}.asn1", i));
+            std::fs::write(&p, t).unwrap();
+            conv.load_file(&p).map_err(|e| format!("load_file: {:?}", e).chars().take(300).collect::<String>())?;
+        }
+        let map = conv.to_protobuf(&out).map_err(|e| format!("to_protobuf: {:?}", e).chars().take(300).collect::<String>())?;
+        let mut files = Vec::new();
+        for (i, m) in g.modules.iter().enumerate() {
+            let nice = {
+                let mut n = m.name.clone();
+                for suffix in ["_Module", "Module"] {
+                    if n.ends_with(suffix) {
+                        n.truncate(n.len() - suffix.len());
+                    }
+                }
+                n
+            };
+            let fl = map.get(&nice).or_else(|| map.get(&m.name)).ok_or_else(|| format!("to_protobuf returned no file for module {}", nice))?;
+            let file = fl.first().ok_or("empty file list")?;
+            let content = std::fs::read_to_string(out.join(file)).map_err(|e| e.to_string())?;
+            files.push((i, file.to_string(), content));
+        }
+        Ok(files)
+    });
+    let _ = std::fs::remove_dir_all(scratch);
+    match r {
+        Ok(Ok(files)) => Ok(files),
+        Ok(Err(e)) => Err(e),
+        Err(p) => Err(format!("protobuf generator panicked: {}", p.signature())),
+    }
+}
+
 fn main() {
     let args = Args::parse();
     let tier = args.str("tier", "quick");
@@ -146,6 +188,7 @@ fn main() {
     let mut shard_pair_arms: Vec<String> = vec![String::new(); nshards];
     let mut types: Vec<serde_json::Value> = Vec::new();
     let mut universes: Vec<Universe> = Vec::new();
+    let mut protos: Vec<serde_json::Value> = Vec::new();
     let mut type_id = 0usize;
     let mut emitted_groups = 0usize;
     for (gi, g) in groups.iter().enumerate() {
@@ -165,6 +208,12 @@ fn main() {
         emitted_groups += 1;
         let ui = universes.len();
         universes.push(Universe { modules: g.modules.clone() });
+        if ["rand", "protoedge", "edges", "sets", "hostile"].contains(&g.family.as_str()) {
+            match emit_protos(g, &scratch) {
+                Ok(files) => protos.push(json!({"universe": ui, "files": files.iter().map(|(mi, f, c)| json!({"module": mi, "file": f, "text": c})).collect::<Vec<_>>()})),
+                Err(e) => protos.push(json!({"universe": ui, "error": e})),
+            }
+        }
         let _ = writeln!(shard_mods[shard], "pub mod {} {{", gname);
         let mut mod_paths: BTreeMap<usize, String> = BTreeMap::new();
         for (mi, modname, content) in &emitted.files {
@@ -271,7 +320,7 @@ fn main() {
     write_if_changed(&out.join("zoorun/src/main.rs"), &template.replace("/*DISPATCH*/", &dispatch));
     write_if_changed(
         &out.join("schema.json"),
-        &serde_json::to_string(&json!({"tier": tier, "seed": seed, "universes": universes, "types": types, "rejected": rejected})).unwrap(),
+        &serde_json::to_string(&json!({"tier": tier, "seed": seed, "universes": universes, "types": types, "rejected": rejected, "protos": protos})).unwrap(),
     );
     println!(
         "zoogen: {} groups, {} emitted, {} rejected, {} types, {} shards -> {}",
